@@ -19,7 +19,12 @@ pub(crate) fn impl_sqrt(n: &BigUint, scale: i64, ctx: &Context) -> BigDecimal {
     if (exponent % 2 == 1) != (scale % 2 != 0) {
         exponent += 1;
     }
-    let sqrt_digits = (n * ten_to_the_uint(exponent)).sqrt();
+    let shifted_digits = n * ten_to_the_uint(exponent);
+    let mut sqrt_digits = shifted_digits.sqrt();
+    if &sqrt_digits * &sqrt_digits != shifted_digits {
+        // inexact integer root: append a sticky digit so the final rounding sees a non-zero tail
+        sqrt_digits = sqrt_digits * 10u8 + 1u8;
+    }
 
     // Calculate the scale of the result
     let result_scale_digits = 2 * (2 * prec - scale_diff) - 1;
